@@ -33,10 +33,9 @@ TB = [
     "series identity (is) in data_point_offset/series_index modelled by position: a series object is appended once (add_series always creates a new object)",
 ]
 ASSUME = [
-    "theorems C08_cat_chart / C08_xy / C08_bubble assume the stated domain (cat_domain / xy_domain): strings that XlsxWriter stores verbatim, no empty series, date labels without time of day, chart date system 1900, depth <= 26, rows < 1048576; outside it the model itself refutes agreement (C08_*_refuted) and the check reports the corresponding input classes as violations",
+    "theorems C08_cat_chart / C08_xy / C08_bubble assume the stated domain (cat_domain / xy_domain): strings that XlsxWriter stores verbatim (not starting with = or {=, no url prefix XlsxWriter converts, at most 32767 characters), no empty series, date labels only on a chart in the 1900 date system, rows < 1048576; outside it the model itself refutes agreement (C08_outside_domain_refuted, C08_long_string_refuted, C08_empty_series_range) and the check reports the corresponding input classes under the signatures string-as-formula, string-as-url, string-over-32767, empty-series-range, date1904-replace, number-over-16-digits",
     "a number needing 17 significant digits is stored rounded to 16 by XlsxWriter; the model does not compute on numbers, so this class is decided by the oracle only",
-    "replace_data histories keep the chart kind and at least one series (replace_data after a replace with zero series raises IndexError in _add_cloned_sers: C07 territory)",
-    "datetime labels with a time of day: the model uses the exact rational serial, XlsxWriter float arithmetic; such cells are compared to 1e-9",
+    "replace_data histories keep the chart kind and at least one series (replace_data on a chart without any c:ser raises in _add_cloned_sers: C07's subject); corpus charts without a series are skipped",
 ]
 
 C_NS = "http://schemas.openxmlformats.org/drawingml/2006/chart"
@@ -389,6 +388,8 @@ def corpus_charts():
                         ct = sh.chart.chart_type
                     except Exception:  # noqa
                         continue
+                    if len(sh.chart._chartSpace.plotArea.sers) == 0:
+                        continue  # replace_data cannot clone a series there (AttributeError in _add_cloned_sers: C07's subject)
                     kind = "xy" if ct in xy else "bub" if ct in bub else "cat"
                     out.append((os.path.relpath(f, repo), si, hi, kind, bool(sh.chart._chartSpace.date_1904)))
     _CORPUS = out
@@ -554,46 +555,54 @@ def str_class(s):
 
 
 def classify(fail, data, date1904):
+    """Stable class name of one oracle failure.  The six classes recorded against
+    python-pptx are recognised by a precise predicate on the failing cell and cached
+    text; everything else keeps a generic name, so that any other disagreement between
+    cache and sheet stays a violation of its own."""
     kind, what, ref, cell, text = fail
+    tag = what.split(":", 1)[0].split(" ")[-1]   # tx | cat | val | xVal | yVal | bubbleSize
     if kind == "reversed-range":
-        if any(len(s[1]) == 0 for s in data["series"]):
+        # empty series: ptCount 0 and the range is exactly one row upside down ($B$2:$B$1)
+        m = _REF.fullmatch(ref or "")
+        if (m and m.group(3) is not None and tag in ("val", "xVal", "yVal", "bubbleSize")
+                and m.group(1) == m.group(3) and int(m.group(2)) == int(m.group(4)) + 1
+                and "(ptCount 0)" in what and any(len(s[1]) == 0 for s in data["series"])):
             return "empty-series-range"
         return "reversed-range"
     if kind == "bad-ref":
-        if data["kind"] == "cat" and _depth(data["cats"]) > 26:
+        if data["kind"] == "cat" and tag == "cat" and _depth(data["cats"]) > 26:
             return "category-depth-over-26"
         return "bad-ref"
     if kind == "cell":
-        if cell is not None and cell[0] == "F":
-            return "string-as-formula"
         labels = _all_labels(data)
-        if text is not None:
+        if text is not None and tag in ("tx", "cat"):
             sc = str_class(text)
-            if sc:
+            if sc == "string-as-formula" and cell is not None and cell[0] == "F":
                 return sc
-            if text == "None" and cell is None and any(l is None for l in labels):
+            if sc == "string-as-url" and (cell is None or (cell[0] == "S" and cell[1] != text and text.endswith(cell[1]))):
+                # XlsxWriter strips mailto: / internal: / external: / file:// or drops an over-long url
+                return sc
+            if sc == "string-over-32767" and cell is not None and cell[0] == "S" and cell[1] == text[:32767]:
+                return sc
+            if text == "None" and cell is None and tag == "cat" and any(l is None for l in labels):
                 return "numeric-category-none"
         if cell is not None and cell[0] == "N" and text is not None:
-            if any(l is not None and l[0] == "t" and l[1:4] == [1900, 1, 1] for l in labels):
-                try:
-                    if Fraction(float(text)) - cell[1] == 1 and cell[1] < 1:
-                        return "datetime-1900-01-01"
-                except ValueError:
-                    pass
-            if any(l is not None and l[0] == "t" and l[4:8] != [0, 0, 0, 0] for l in labels) and cell[1].denominator != 1:
-                return "datetime-time-of-day"
-            if date1904 and any(l is not None and l[0] in "dt" for l in labels):
-                return "date1904-replace"
             try:
                 f = float(text)
-                if float("%.16G" % f) != f:
+            except ValueError:
+                f = None
+            if f is not None and f == f and abs(f) != float("inf"):
+                fr = Fraction(*f.as_integer_ratio())
+                if tag == "cat" and any(l is not None and l[0] == "t" and l[1:4] == [1900, 1, 1] for l in labels) and fr == 1 and 0 <= cell[1] < 1:
+                    return "datetime-1900-01-01"
+                if tag == "cat" and any(l is not None and l[0] == "t" and l[4:8] != [0, 0, 0, 0] for l in labels) and 0 < cell[1] - fr < 1:
+                    return "datetime-time-of-day"
+                if tag == "cat" and date1904 and any(l is not None and l[0] in "dt" for l in labels) and cell[1] - fr in (1461, 1462):
+                    # the chart caches the 1904 serial, the workbook is always written in the 1900 system
+                    return "date1904-replace"
+                if tag in ("val", "xVal", "yVal", "bubbleSize") and float("%.16G" % f) != f \
+                        and Fraction(*float("%.16G" % f).as_integer_ratio()) == cell[1]:
                     return "number-over-16-digits"
-            except (ValueError, OverflowError):
-                pass
-        for s in _all_strings(data):
-            sc = str_class(s)
-            if sc and cell is None:
-                return sc
         return "cache-cell-mismatch"
     return kind
 
@@ -1007,8 +1016,8 @@ def check_state(ck, case, label, data, date1904, mstate, istate, stats, first_on
     elif not isinstance(ix, str) and isinstance(ish, str) and ish != "err:Value":
         # the chart XML exists but no workbook can be written for this data
         sig = "workbook-write-crash"
-        if ish == "err:Index" and has_url_like(data):
-            sig = "string-as-url"
+        if ish == "err:Index" and any(re.fullmatch(r"file://.?", x) for x in _all_strings(data)):
+            sig = "string-as-url"   # XlsxWriter's url parser indexes past a one-character file:// path
         concrete = True
         stats["oracle_failures"][sig] = stats["oracle_failures"].get(sig, 0) + 1
         ck.violation(sig, "chart XML is produced but writing the workbook raises %s" % ish,
@@ -1018,11 +1027,7 @@ def check_state(ck, case, label, data, date1904, mstate, istate, stats, first_on
     mx = mstate["xml"]
     if first_only and not isinstance(mx, str):
         mx = mx[:1]
-    approx = set()
-    if data["kind"] == "cat":
-        for i, c in enumerate(data["cats"]):
-            if c[0] is not None and c[0][0] == "t" and c[0][4:8] != [0, 0, 0, 0] and not c[1]:
-                approx.add((i + 1, 0))
+    approx = set()  # no cell is compared approximately (datetime labels are written as dates)
     d = diff_xml(mx, ix) or diff_sheet(mstate["sheet"], ish, approx)
     if d is None and mstate.get("agree") in ("True", "False") and not isinstance(ix, str) and not isinstance(ish, str):
         # a new pie chart carries only series 0 in its XML: the model's verdict covers all series
@@ -1190,7 +1195,7 @@ def _run(ck, tier, rng, tmp=None):
     ck.broken_build(oracle_found_concrete=any(v["concrete"] for v in ck.violations))
     return ck.finish(
         rule="_column_reference on every n in 1..16384 and 10 values outside; category chart data with series counts crossing Z/AA, ZZ/AAA (24..27, 52, 53, 700, 703%s) x category depth 1..4 (ragged branching, string/number/date labels, None labels and values, unequal series lengths); XY and bubble data with 0..6 (and 40..%d) series of unequal lengths; new chart + 1..3 replace_data with differently shaped data through a real presentation (every 5th saved and re-opened); replace_data on the charts of the decks under /repo (%s); edge classes (empty series, 17-digit numbers, formula/url-like/over-long strings, datetime labels, date1904 charts, depth 26/27) and a malformed stream (non-uniform depth, no categories, mixed label types). non-trivial = n in 1..16384 for column references; otherwise the (last) data has >= 2 series and >= 2 points, or >= 2 category levels and a point" % (
-            "" if tier == "quick" else ", 1400", 120 if tier == "quick" else 1000, "every 3rd of 95" if tier == "quick" else "all 95"),
+            "" if tier == "quick" else ", 1400", 120 if tier == "quick" else 1000, "every 3rd of the %d with at least one series" % len(corpus_charts()) if tier == "quick" else "all %d with at least one series" % len(corpus_charts())),
         trusted_base=TB, assumptions=ASSUME,
         extra={"correspondence_diffs": stats["diffs"], "diffs_attributed_to_oracle_failures": stats["attributed_diffs"],
                "oracle_failures_by_signature": stats["oracle_failures"], "reopened_packages": stats.get("reopened", 0), "exhaustive": False},
@@ -1252,3 +1257,11 @@ def replay(rec):
             if d:
                 rc = 1
     return rc
+
+
+CLAIM = {
+    "tech": "Coq proof over a Gallina model of the three workbook writers (through XlsxWriter's write dispatch), the reference functions and the XML caches, for all chart data, all column positions, all category depths, all series lengths and all replace_data histories + extracted-model correspondence against the real .xlsx and chart XML + independent oracle (A1 parser, cell-for-cell comparison) incl. replace_data on generated and PowerPoint-authored charts and save/re-open",
+    "text": "18 theorems closed under the global context: the column reference is inverted by reading the letters back for every n >= 1 and raises exactly outside 1..16384; the series and categories references raise exactly beyond column 16384 (series column = 1 + depth + index) and their texts are the renderings of the structured references; every value, name and category-level cell is where the reference points (level i in column c2 - i, row idx + 2, idx distinct and below the leaf count = range height = ptCount, as many levels as columns); XY/bubble tables of different series never overlap for arbitrary lengths; for all data in the stated domain every cached point equals the cell it is indexed to and rows without a point are empty; after any history of replace_data the XML and the sheet are those of the data written last and there is one workbook part. Tied to chart/xlsx.py, chart/data.py, chart/xmlwriter.py, parts/chart.py by ~19k (quick) / ~40k (thorough) cases run on python-pptx and on the extracted model: model sheet vs real sheet cell for cell, model references and caches vs every c:f / c:ptCount / c:pt, model verdict vs oracle verdict.",
+    "note": "outside the domain the model itself refutes agreement and python-pptx does disagree (recorded input classes: string-as-formula, string-as-url, string-over-32767, number-over-16-digits, empty-series-range, date1904-replace); XlsxWriter's number formatting ('%.16G') and url parsing are outside the model; more than 16384 series and more than 1048576 rows are covered by the guard theorems only; series identity is modelled by position.",
+    "ref": "6/C08",
+}
